@@ -8604,6 +8604,9 @@ impl serde::Serialize for ScalarValue {
                     #[allow(clippy::needless_borrows_for_generic_args)]
                     struct_ser.serialize_field("uint64Value", ToString::to_string(&v).as_str())?;
                 }
+                scalar_value::Value::Float16Value(v) => {
+                    struct_ser.serialize_field("float16Value", v)?;
+                }
                 scalar_value::Value::Float32Value(v) => {
                     struct_ser.serialize_field("float32Value", v)?;
                 }
@@ -8754,6 +8757,8 @@ impl<'de> serde::Deserialize<'de> for ScalarValue {
             "uint32Value",
             "uint64_value",
             "uint64Value",
+            "float16_value",
+            "float16Value",
             "float32_value",
             "float32Value",
             "float64_value",
@@ -8835,6 +8840,7 @@ impl<'de> serde::Deserialize<'de> for ScalarValue {
             Uint16Value,
             Uint32Value,
             Uint64Value,
+            Float16Value,
             Float32Value,
             Float64Value,
             Date32Value,
@@ -8901,6 +8907,7 @@ impl<'de> serde::Deserialize<'de> for ScalarValue {
                             "uint16Value" | "uint16_value" => Ok(GeneratedField::Uint16Value),
                             "uint32Value" | "uint32_value" => Ok(GeneratedField::Uint32Value),
                             "uint64Value" | "uint64_value" => Ok(GeneratedField::Uint64Value),
+                            "float16Value" | "float16_value" => Ok(GeneratedField::Float16Value),
                             "float32Value" | "float32_value" => Ok(GeneratedField::Float32Value),
                             "float64Value" | "float64_value" => Ok(GeneratedField::Float64Value),
                             "date32Value" | "date_32_value" => Ok(GeneratedField::Date32Value),
@@ -9033,6 +9040,12 @@ impl<'de> serde::Deserialize<'de> for ScalarValue {
                                 return Err(serde::de::Error::duplicate_field("uint64Value"));
                             }
                             value__ = map_.next_value::<::std::option::Option<::pbjson::private::NumberDeserialize<_>>>()?.map(|x| scalar_value::Value::Uint64Value(x.0));
+                        }
+                        GeneratedField::Float16Value => {
+                            if value__.is_some() {
+                                return Err(serde::de::Error::duplicate_field("float16Value"));
+                            }
+                            value__ = map_.next_value::<::std::option::Option<::pbjson::private::NumberDeserialize<_>>>()?.map(|x| scalar_value::Value::Float16Value(x.0));
                         }
                         GeneratedField::Float32Value => {
                             if value__.is_some() {
